@@ -20,8 +20,16 @@ FN = {"findall": "FindAll", "find": "Find", "findall_by_attr": "FindAllByAttr", 
 
 
 def mk(fn, tree, cached=False, filt=None, stop=None, ml=None, lo=None, hi=None, attrs=(), value=0):
+    mk.counter += 1
     return {"fn": fn, "cached": cached, "tree": tree, "filt": filt, "stop": stop, "ml": ml, "lo": lo, "hi": hi,
-            "attrs": [list(a) for a in attrs], "value": value}
+            "attrs": [list(a) for a in attrs], "value": value, "embed": mk.counter % 3 == 0}
+
+
+mk.counter = 0
+
+
+def _unused():
+    return None
 
 
 def gen_cases(tier, seed):
@@ -57,8 +65,14 @@ def gen_cases(tier, seed):
                 c //= 3
                 if r:
                     attrs.append((x, r - 1))
-            for value in (0, 1):
+            for value in (0, 1, 99):
                 for ml in (None, 1, 2):
+                    if value == 99:
+                        # None as the searched value, and as the value of some nodes' attribute
+                        attrs99 = [(x, 99 if (x + code) % 2 else v) for x, v in attrs]
+                        cases.append(mk("findall_by_attr", t, attrs=attrs99, value=99, ml=ml))
+                        cases.append(mk("find_by_attr", t, attrs=attrs99, value=99, ml=ml, cached=True))
+                        continue
                     cases.append(mk("find_by_attr", t, attrs=attrs, value=value, ml=ml, cached=(code % 2 == 0)))
                     for lo, hi in ((None, None), (1, None), (None, 1), (2, 2), (0, 0)):
                         cases.append(mk("findall_by_attr", t, attrs=attrs, value=value, ml=ml, lo=lo, hi=hi,
